@@ -14,7 +14,7 @@
 EXTENDS Naturals, Sequences, FiniteSets, TLC
 
 CONSTANTS N, Formats, ColKinds,
-          Profiles   \* value alphabets: "plain" (NaN, negatives) and "edge" (infinities, -1, 16-bit extremes, text with a comma) - see harness/adapters/export.py
+          Profiles   \* value alphabets: "plain" (NaN, negatives) and "edge" (infinities, -1, 16-bit extremes, text with a comma), "narrow" (float32 / int16 storage) - see harness/adapters/export.py
 
 VARIABLES cfg, exp, stage, picked
 vars == <<cfg, exp, stage, picked>>
